@@ -2,6 +2,7 @@ import Tx3Proofs.C16
 import Tx3Proofs.C16Int
 import Tx3Proofs.C16Ref
 import Tx3Proofs.C16Exact
+import Tx3Proofs.C16Bool
 #print axioms Tx3.Json.C16_hex_roundtrip
 #print axioms Tx3.Json.C16_hexToBytes_plain
 #print axioms Tx3.Json.C16_hexToBytes_prefixed
@@ -16,3 +17,5 @@ import Tx3Proofs.C16Exact
 #print axioms Tx3.Json.go_exact
 #print axioms Tx3.Json.C16_request_args_exact
 #print axioms Tx3.Json.C16_argument_overrides_env
+#print axioms Tx3.Json.C16_bool_only
+#print axioms Tx3.Json.C16_number_not_bool
